@@ -59,7 +59,8 @@ Definition run_graph (s : sx) : sx := L (run_steps [] (map op_of (sx_list (sx_ar
 
 (* ---------- opcode 51: a sequence of class statements ----------
    case: (51 nnames (stmt ...)) with stmt =
-     (0 (name ...))   a class statement; name = ((owner ...) (def ...)): for each base, in base order, the index of
+     (0 mc (name ...)) a class statement (mc = 1: the class has the metaclass OvldMC, 0: a plain class);
+                      name = ((owner ...) (def ...)): for each base, in base order, the index of
                       the class in whose dictionary Python's getattr(base, name) finds the name (-1: nowhere), as
                       computed by CPython's MRO; def = (kind sig label), kind 0 plain | 1 @ovld | 2 @extend_super
      (1)              every overloaded method of every class is called once (first use: compile)
@@ -84,14 +85,14 @@ Definition of_world (g : graph) (w : world) : sx := L (map (fun c => L (map (of_
 Definition of_cerr (e : cerr) : sx := A (match e with EName => 1 | ENotOvld => 2 | ELocked => 3 | EOther => 4 end)%Z.
 
 (* the names of one class statement, one after the other *)
-Fixpoint class_names (g : graph) (w : world) (name : nat) (specs : list sx) : cres (list attr) :=
+Fixpoint class_names (mc : bool) (g : graph) (w : world) (name : nat) (specs : list sx) : cres (list attr) :=
   match specs with
   | [] => COk g []
   | sp :: r =>
       let bases := map (lookup_attr w name) (sx_list (sx_nth 0 sp)) in
       let body := map def_of (sx_list (sx_nth 1 sp)) in
-      cbind (cd_name g bases body) (fun g1 a =>
-      cbind (class_names g1 w (S name) r) (fun g2 rest => COk g2 (a :: rest)))
+      cbind (if mc then cd_name g bases body else pd_name g body) (fun g1 a =>
+      cbind (class_names mc g1 w (S name) r) (fun g2 rest => COk g2 (a :: rest)))
   end.
 
 Fixpoint name_flags (w : world) (name : nat) (specs : list sx) : list sx :=
@@ -100,9 +101,7 @@ Fixpoint name_flags (w : world) (name : nat) (specs : list sx) : list sx :=
   | sp :: r =>
       let bases := map (lookup_attr w name) (sx_list (sx_nth 0 sp)) in
       let body := map def_of (sx_list (sx_nth 1 sp)) in
-      let prepared := match filter is_ov bases with
-                      | AOvld _ _ :: rest => negb (is_nil (marked_nodes rest))
-                      | _ => false end in
+      let prepared := prepared_b bases in
       L [of_bool (cls_kf41 (if prepared then AOvld 0 false else ANone) body); of_bool (cls_kf42 body); of_bool prepared]
         :: name_flags w (S name) r
   end.
@@ -116,9 +115,10 @@ Fixpoint run_stmts (g : graph) (w : world) (stmts : list sx) : list sx :=
   | st :: r =>
       match sx_tag st with
       | 0%Z =>
-          let specs := sx_list (sx_arg 0 st) in
-          let flags := L (name_flags w 0 specs) in
-          match class_names g w 0 specs with
+          let mc := sx_bool (sx_arg 0 st) in
+          let specs := sx_list (sx_arg 1 st) in
+          let flags := if mc then L (name_flags w 0 specs) else L [] in
+          match class_names mc g w 0 specs with
           | COk g' attrs =>
               let w' := w ++ [attrs] in
               L [A 0%Z; of_world g' w'; flags] :: run_stmts g' w' r
